@@ -12,7 +12,11 @@ def main():
     for mod, case, fam, oseed in req["jobs"]:
         m = mods.get(mod) or mods.setdefault(mod, importlib.import_module("harness." + mod))
         try:
-            out.append(m.c15_eval(case, fam, oseed))
+            from harness import common as _C
+            with _C.time_limit(30):
+                out.append(m.c15_eval(case, fam, oseed))
+        except _C.CallTimeout:
+            out.append("err:does-not-terminate(30s)")
         except Exception as e:  # adapter crash is reported as a result, compared like any other
             out.append("crash:%s:%s" % (type(e).__name__, str(e)[:80]))
     json.dump(out, sys.stdout)
